@@ -1,6 +1,6 @@
 (* reads module dumps in the format of harness/vdump.h (each ended by ENDMOD).
-   A dump that starts with "PREGATE xxp xxt" is what a loader left behind: prints "PRE post=<0/1> REJECT" or
-   "PRE post=<0/1> <canonical form of finish(raw)>".  Any other dump is a loaded module: prints "POST <canonical form> <ok|BAD clauses>". *)
+   A dump that starts with "PREGATE xxp xxt marker" is what a loader left behind: prints "PRE post=<0/1> REJECT" or
+   "PRE post=<0/1> <canonical form of load_accepts(raw, marker)>".  Any other dump is a loaded module: prints "POST <canonical form> <ok|BAD clauses>". *)
 open Gate_model
 open Zio
 let zi s = z_of_int (int_of_string s)
@@ -14,7 +14,7 @@ let names = ["counts"; "names"; "orders"; "patterns"; "instruments"; "samples"; 
 let rec pairs = function a :: b :: r -> (zi a, zi b) :: pairs r | _ -> []
 let () = iter_lines (fun l ->
   match words l with
-  | ["PREGATE"; a; b] -> pre := Some (a = "1", b = "1")
+  | ["PREGATE"; a; b; mk] -> pre := Some (a = "1", b = "1", mk = "1")
   | "MOD" :: chn :: len :: pat :: trk :: ins :: smp :: spd :: bpm :: rst :: _ ->
       m := { (empty ()) with d_chn = zi chn; d_len = zi len; d_pat = zi pat; d_trk = zi trk; d_ins = zi ins; d_smp = zi smp; d_spd = zi spd; d_bpm = zi bpm; d_rst = zi rst };
       pats := []; trks := []; chans := []; inss := []; smps := []
@@ -45,11 +45,11 @@ let () = iter_lines (fun l ->
           (String.concat " " (List.map (fun i -> zs i.i_aei.e_flg ^ "/" ^ zs i.i_pei.e_flg ^ "/" ^ zs i.i_fei.e_flg) x.d_inss))
           (String.concat " " (List.map (fun s -> zs s.sm_flg ^ "/" ^ zs s.sm_sus ^ "/" ^ zs s.sm_sue) x.d_smps)) in
       (match !pre with
-       | Some (xp, xt) ->
+       | Some (xp, xt, mk) ->
            pre := None;
            let r = { r_m = d; r_has_xxp = xp; r_has_xxt = xt } in
            let post = if loader_postb r then "1" else "0" in
-           (match finish r with None -> print_endline ("PRE post=" ^ post ^ " REJECT") | Some x -> print_endline ("PRE post=" ^ post ^ " " ^ canon x))
+           (match load_accepts r mk with None -> print_endline ("PRE post=" ^ post ^ " REJECT") | Some x -> print_endline ("PRE post=" ^ post ^ " " ^ canon x))
        | None ->
            let v = if public_wfb d then "ok" else ("BAD " ^ String.concat "," (List.filter_map (fun x -> x) (List.map2 (fun n b -> if b then None else Some n) names (wf_report d)))) in
            print_endline ("POST " ^ canon d ^ " # " ^ v))
